@@ -611,6 +611,28 @@ func (s *Scope) evalCall(e *Expr) *Val {
 		a, b := argv(0), argv(1)
 		t := Concat(a.T, b.T)
 		return &Val{K: KScalar, T: t, Ty: uintType(bvWidth(t.Sort))}
+	case "le32", "le64", "le16":
+		// le32(buf, off): little-endian word of a byte slice
+		a := argv(0)
+		off := s.toIdx(argv(1))
+		n := map[string]int64{"le16": 2, "le32": 4, "le64": 8}[e.Name]
+		var acc Term
+		for i := int64(0); i < n; i++ {
+			b := c.load(s.st, RefElem(a.Base, c.idxAdd(a.Off, c.idxAdd(off, c.idxLit(i)))), types.Typ[types.Uint8]).T
+			if i == 0 {
+				acc = b
+			} else {
+				acc = Concat(b, acc)
+			}
+		}
+		return &Val{K: KScalar, T: acc, Ty: uintType(int(n * 8))}
+	case "fbits64":
+		// fbits64(0x3FE0...): the float64 with these bits
+		x := argv(0)
+		return scalar(BVLit(x.T.C, 64), types.Typ[types.Float64])
+	case "fbits32":
+		x := argv(0)
+		return scalar(BVLit(x.T.C, 32), types.Typ[types.Float32])
 	case "fresh":
 		// fresh(p): p was allocated during the call
 		a := argv(0)
@@ -660,6 +682,22 @@ func (s *Scope) evalCall(e *Expr) *Val {
 		w, _, _ := intInfo(t)
 		_, signed, _ := intInfoOrUnsigned(x.Ty)
 		return scalar(Resize(x.T, w, signed), t)
+	}
+	// conversion to a named integer type of the package under contract, e.g. RegType(x)
+	if s.pkg != nil && len(e.Args) == 1 {
+		if m, ok := s.pkg.Members[e.Name].(*ssa.Type); ok {
+			if w, _, isInt := intInfo(m.Type()); isInt {
+				x := argv(0)
+				if x.T.Sort == SInt && x.T.C != nil {
+					return scalar(c.intLit(x.T.C, w), m.Type())
+				}
+				if c.intMode {
+					return scalar(x.T, m.Type())
+				}
+				_, signed, _ := intInfoOrUnsigned(x.Ty)
+				return scalar(Resize(x.T, w, signed), m.Type())
+			}
+		}
 	}
 	// user spec function (macro expansion)
 	if sf, ok := c.W.specFns[e.Name]; ok {
